@@ -745,6 +745,36 @@ def negated_fields(facts, meng, fn_neg):
     return out
 
 
+def whole_neg_of_self(body, fn, facts, local, self_adt):
+    """`local` holds `-*self` (the type's own Neg / a copy followed by nothing else): result of a call to the `neg` of
+    self's type whose argument is a copy of `*self`."""
+    d = body.single_def(local)
+    if not d or d[2] != "call":
+        return False
+    t = d[3]
+    tgt = facts.fns.get(t[1].get("id"))
+    if tgt is None or tgt["item"] != "neg" or tgt.get("self_adt") != self_adt or not t[2]:
+        return False
+    a = chase_copy_of_self(body, fn, t[2][0])
+    return a
+
+
+def chase_copy_of_self(body, fn, op, depth=0):
+    if depth > 6 or op[0] not in ("cp", "mv"):
+        return False
+    pl = op[1]
+    if pl[0] == 1 and all(e == "*" for e in pl[1:]):
+        return True
+    if len(pl) != 1:
+        return False
+    d = body.single_def(pl[0])
+    if d and d[2] == "A" and d[3][2][0] == "use":
+        return chase_copy_of_self(body, fn, d[3][2][1], depth + 1)
+    if d and d[2] == "A" and d[3][2][0] == "ref" and d[3][2][2][0] == 1 and all(e == "*" for e in d[3][2][2][1:]):
+        return True
+    return False
+
+
 def run_muxshape(facts, run, prop="C20"):
     meng = MaskEngine(facts)
     cfg = facts.config
@@ -828,6 +858,7 @@ def run_muxshape(facts, run, prop="C20"):
             report(fn, "set_condneg", True, "delegates to the inner type's set_condneg")
             continue
         fields = set()
+        from_neg = set()
         bad = None
         blocked_neg = None
         ctl = ctl_index(facts, fn)
@@ -843,7 +874,13 @@ def run_muxshape(facts, run, prop="C20"):
                 if not ctl_arg_ok(body, fn, t[2][2], ctl):
                     bad = "control word is not this function's ctl"
                     break
-                fields.add(a0[1])
+                # `let N = -*self; self.F.set_cond(&N.F, ctl)` for every field: a field the negation leaves alone is copied
+                # onto itself, so only the fields the negation changes count
+                src = chase_to_param_field(body, fn, t[2][1]) if len(t[2]) > 1 else None
+                if src is not None and src[0] == "local" and src[2] == a0[1] and whole_neg_of_self(body, fn, facts, src[1], self_adt):
+                    from_neg.add(a0[1])
+                else:
+                    fields.add(a0[1])
         if bad:
             report(fn, "set_condneg", False, bad)
             continue
@@ -865,6 +902,7 @@ def run_muxshape(facts, run, prop="C20"):
             # set_condneg itself touches only for non-emptiness
             report(fn, "set_condneg", bool(fields), "negation routine %s has no per-field neg; fields conditionally replaced: %s" % (negfn["name"], sorted(fields)))
             continue
+        fields |= (from_neg & want)
         ok = fields == want
         if ok and blocked_neg:
             ok = None
